@@ -28,7 +28,8 @@ TECHNIQUE = ("differential property-based testing: sync vs async entry points (e
 LEVEL_TEXT = ("Exploration by generated-input search with the library's sync mode as oracle (C01/C02/C13 tie the sync mode to "
               "independent models): for every generated query/document the async entry points must return the same values "
               "(identity for containers), paths and parts in the same order, or raise the same error class; the same with "
-              "async item getters that yield to the event loop, and for 4 evaluations gathered concurrently on one loop.")
+              "async item getters that yield to the event loop, and for 4 evaluations gathered concurrently on one loop."
+              ' Each context template is also placed in every operand position of | and & compound queries.')
 LEVEL_TEXT += ' Also: 24 uses of the filter-context identifier (bare, rooted, nested, as function argument) x 6 contexts (none, empty, populated) x {child, descendant} x {plain, async-getter}, exhaustive.'
 LEVEL_TEXT += ' Also exhaustive: 20 queries whose nested filters refer to the root / fake root / filter context from two or three levels down x 3 documents x 2 contexts x {plain, async-getter}.'
 BUDGET_S = {"quick": 75, "thorough": 600}
